@@ -110,8 +110,24 @@ func runCase(run *vh.Run, idx int, c Case) *obs {
 			return
 		}
 		calls, orgs := worldCoq(w, fieldMap(c.Services))
-		ob.coq = fmt.Sprintf("mk_case %s %s %s %s %s %s %s %s (Some %s)", info.term, calls, orgs, qTerm, vh.CoqBool(info.explicit),
-			flatTerm, planTerm, answerTerm, vh.CoqJSON(refC))
+		allFed := true
+		for _, s := range c.Services {
+			// a service without any federated object has no _federation on its Query either
+			allFed = allFed && len(s.Objects) > 0
+			for _, f := range s.Query {
+				allFed = allFed && f.Ret.Kind != "leaf"
+			}
+			for _, o := range s.Objects {
+				for _, f := range o.Fields {
+					allFed = allFed && f.Ret.Kind != "leaf"
+				}
+			}
+		}
+		if allFed {
+			run.Hist("model:all-objects-federated")
+		}
+		ob.coq = fmt.Sprintf("mk_case %s %s %s %s %s %s %s %s (Some %s) %s", info.term, calls, orgs, qTerm, vh.CoqBool(info.explicit),
+			flatTerm, planTerm, answerTerm, vh.CoqJSON(refC), vh.CoqBool(allFed))
 	}()
 	g.mu.Lock()
 	ob.res.subs = append([]subRequest{}, g.log...)
